@@ -159,6 +159,28 @@ def ex_e2e(ctx, case, test="BS", num_sim=4, seed=1, layout="C", inject=False, sc
         fn, mod, lam, wobs = be.binary_conditional_likelihood_test, be, rates, w
     else:
         fn, mod, lam, wobs = br.brier_score_test, br, rates, w
+    if seed % 7 == 3 and cat.event_count and cat.event_count == int(w.sum()):
+        # a swarm: the bin (for the spatial test: the cell) of the first event holds exactly 256 (512) events - a count that a narrow
+        # integer type turns into 0; the scores depend on the bin being active, not on the count
+        from csep.core.catalogs import CSEPCatalog
+        rows = [(r_[0].decode() if isinstance(r_[0], bytes) else r_[0],) + tuple(r_[1:]) for r_ in cat.catalog.tolist()]
+        ec, em = numpy.asarray(case["ev_cell"], dtype=int), numpy.asarray(case["ev_mag"], dtype=int)
+        order = case.get("event_order")
+        if order is None and case.get("history") is None and len(rows) == ec.size:      # (plain cases only: rebuilt rows carry the stored values)
+            c0, k0 = int(ec[0]), int(em[0])
+            target = 256 * (1 + seed % 2)
+            have = int(w[c0, :].sum()) if test == "BS" else int(w[c0, k0])
+            extra = target - have
+            if extra > 0:
+                rows += [("swarm%d" % i,) + tuple(rows[0][1:]) for i in range(extra)]
+                cat = CSEPCatalog(data=rows, region=reg, name="obs")
+                w = w.copy()
+                w[c0, k0] += extra
+                if test == "BS":
+                    wobs = w.sum(axis=1)
+                else:
+                    wobs = w
+                ctx.add("swarm_256_events_in_one_bin")
     tags = {"test": test, "has_zero_rate": bool(numpy.any(lam == 0)), "scaled": scale is not None, "event_below_min_mag": bool(test == "BS" and cat.event_count != int(w.sum())),
             "zero_rate_active_bin": bool(numpy.any((numpy.asarray(lam) == 0) & (numpy.asarray(wobs) > 0)))}
     n_active = int((numpy.asarray(wobs) > 0).sum())
